@@ -113,6 +113,17 @@ Proof.
           (conj (time_parse_accepts s) (conj (dur_parse_accepts s) (time_parse_err s))))).
 Qed.
 
+(* A domain fact (not a finding): the two-digit year is the local year, so
+   an instant whose local civil time falls in the day before 2000-01-01 or in
+   the day after 2099-12-31 -- in particular instants of 2000..2099 within
+   12 h of either end, seen from a suitable zone -- has no valid 16-character
+   form: the domain of C20_time_fmt_parse cannot be extended at its edges. *)
+Theorem C20_time_domain_edge : forall t q : Z,
+  -48 <= q <= 48 ->
+  (-864000 <= t + q * 9000 < 0 \/ 36525 * 864000 <= t + q * 9000 < 36526 * 864000) ->
+  exists s, time_format (t, q) = Ok s /\ valid_abs_time s = false.
+Proof. exact time_domain_edge. Qed.
+
 (* non-vacuity: "991231235959948-" is valid, is not in the excluded class and denotes
    2100-01-01T11:59:59.9Z at -48 quarter hours; 875043 h 34 min 29 s is a period in range *)
 Example C20_time_example :
